@@ -40,6 +40,8 @@ enum Op {
     Retarget,
     /// create an untracked / ignored path (index into `NEW_PATHS`)
     Create(u8),
+    /// replace the directory `nd` (holding the intent-to-add entry nd/n2) by a regular file: lstat(nd/n2) fails with ENOTDIR
+    ItaParentToFile,
     /// `git init` an untracked nested repository at `sub`
     NestedRepo,
     /// remove and re-create the tracked directory `p/t` with identical content: it becomes the entry `read_dir(p)` yields in another
@@ -48,7 +50,10 @@ enum Op {
 }
 
 /// tracked paths: a (file), x (executable file), d/b (file in directory), l (symlink -> a)
-const TRACKED: &[&str] = &["a", "x", "d/b", "l"];
+/// index 4 and 5 are intent-to-add entries (`git add -N`): present in the index with the empty blob, not in HEAD
+const TRACKED: &[&str] = &["a", "x", "d/b", "l", "n", "nd/n2"];
+/// what every state reports for the untouched intent-to-add entries
+const ITA_BASELINE: &[&str] = &["A n", "A nd/n2"];
 /// `.gitignore` = "*.ign\nigd/\n"
 /// `p/` has no tracked file of its own, only `p/t/f`: new sub-directories before (`a`) and after (`z`) `t` must not make `p/` collapse
 const NEW_PATHS: &[&str] = &["u", "ud/f", "d/u", "e/", "i.ign", "igd/f", "ud/j.ign", "d/k.ign", "ud/deep/g", "p/a/u", "p/z/u", "p/a/", "p/z/", "p/a/i.ign"];
@@ -85,6 +90,15 @@ fn ops_alphabet() -> Vec<Op> {
         Delete(3),
         NestedRepo,
         RecreateTrackedDir,
+        // intent-to-add entries: removed, replaced by a directory, parent replaced by a file, content and mode changed
+        Delete(4),
+        ToDir(4),
+        SameSizeKeepMtime(4),
+        GrowKeepMtime(4),
+        Chmod(4),
+        SwapLinkAndFile(4),
+        Delete(5),
+        ItaParentToFile,
     ];
     for i in 0..NEW_PATHS.len() {
         v.push(Create(i as u8));
@@ -116,9 +130,12 @@ fn write_tracked(root: &Path) {
     mach(std::fs::write(root.join("d/b"), b"bbbb\n"), "write d/b");
     mach(std::fs::create_dir_all(root.join("p/t")), "mkdir p/t");
     mach(std::fs::write(root.join("p/t/f"), b"ffff\n"), "write p/t/f");
+    mach(std::fs::create_dir_all(root.join("nd")), "mkdir nd");
+    mach(std::fs::write(root.join("n"), b"nnnn\n"), "write n");
+    mach(std::fs::write(root.join("nd/n2"), b"n2n2\n"), "write nd/n2");
     mach(std::os::unix::fs::symlink("a", root.join("l")), "symlink l");
     mach(std::fs::write(root.join(".gitignore"), b"*.ign\nigd/\n"), "write .gitignore");
-    for p in ["a", "x", "d/b", "p/t/f", ".gitignore"] {
+    for p in ["a", "x", "d/b", "p/t/f", "n", "nd/n2", ".gitignore"] {
         set_mtime(&root.join(p), M0);
     }
 }
@@ -129,8 +146,9 @@ fn template() -> &'static Template {
         git::init(&dir);
         git::git(&dir, &["config", "core.trustctime", "false"]);
         write_tracked(&dir);
-        git::git(&dir, &["add", "-A"]);
+        git::git(&dir, &["add", "-A", "--", ":!n", ":!nd"]);
         git::git(&dir, &["commit", "-q", "-m", "init"]);
+        git::git(&dir, &["add", "--intent-to-add", "n", "nd/n2"]);
         let g = dir.join(".git");
         let _ = std::fs::remove_dir_all(g.join("hooks"));
         let index = mach(std::fs::read(g.join("index")), "read template index");
@@ -162,6 +180,7 @@ fn setup(c: &Case) -> scratch::Dir {
     } else {
         // populate the index from HEAD with the stat data of the files just written
         git::git(dir.path(), &["reset", "-q"]);
+        git::git(dir.path(), &["add", "--intent-to-add", "n", "nd/n2"]);
     }
     set_mtime(&idx, (M0 as i64 + c.index_age as i64) as u64);
     dir
@@ -239,6 +258,14 @@ fn apply(root: &Path, op: Op) -> Result<(), &'static str> {
             } else {
                 return Err("neither file nor link");
             }
+        }
+        ItaParentToFile => {
+            let d = root.join("nd");
+            if !d.is_dir() {
+                return Err("nd is no directory any more");
+            }
+            mach(std::fs::remove_dir_all(&d), "rm -r nd");
+            mach(std::fs::write(&d, b"now a file\n"), "write nd");
         }
         DirToFile => {
             let d = root.join("d");
@@ -463,12 +490,14 @@ fn evaluate_inner(run: &Run, c: &Case) -> Verdict {
         }
         run.mc_validated(1);
     }
-    let kinds: BTreeSet<char> = git_all.iter().map(|s| s.chars().next().unwrap_or(' ')).collect();
+    // the untouched intent-to-add entries are reported in every state: they do not make a state interesting
+    let beyond_baseline: Vec<&String> = git_all.iter().filter(|l| !ITA_BASELINE.contains(&l.as_str())).collect();
+    let kinds: BTreeSet<char> = beyond_baseline.iter().map(|s| s.chars().next().unwrap_or(' ')).collect();
     let class: String = if kinds.is_empty() { "clean".into() } else { kinds.into_iter().collect() };
     // the racy-git question: was a same-size, same-mtime edit among the mutations?
     let stealth = c.ops.iter().any(|o| matches!(o, Op::SameSizeKeepMtime(_)));
     let tag = if stealth { if c.index_age > 0 { "/stealth-edit-nonracy" } else { "/stealth-edit-racy" } } else { "" };
-    if !git_all.is_empty() || stealth {
+    if !beyond_baseline.is_empty() || stealth {
         ok(format!("agree:{class}{tag}"))
     } else {
         ok_trivial(format!("agree:{class}{tag}"))
@@ -495,7 +524,7 @@ pub fn run(run: &'static Run) {
     let alphabet = ops_alphabet();
     let core = core_ops();
     run.rule(format!(
-        "worktree with tracked a (file), x (executable), d/b, p/t/f (directory p without tracked files of its own), l (symlink), .gitignore ('*.ign', 'igd/'); every mutation sequence of length <= 1 over {} operations {:?} (core.checkStat default and minimal), every pair of them (thorough) or of the 19 operations of quick_pair_ops() (quick; core.checkStat=minimal, index copied) \
+        "worktree with tracked a (file), x (executable), d/b, p/t/f (directory p without tracked files of its own), l (symlink), intent-to-add entries n and nd/n2 (git add -N), .gitignore ('*.ign', 'igd/'); every mutation sequence of length <= 1 over {} operations {:?} (core.checkStat default and minimal), every pair of them (thorough) or of the 19 operations of quick_pair_ops() (quick; core.checkStat=minimal, index copied) \
          (Create(i) makes {:?}){}; index timestamp - indexed mtime in {{+10 s (not racy), 0 (racily clean){}}}; after the last mutation of every sequence (every prefix is a sequence of its own) \
          status is compared for showUntrackedFiles = no, normal (collapsed, ignored collapsed), all (every file, ignored matching). \
          Non-trivial = final status not clean or the sequence contains a same-size same-mtime edit.",
